@@ -16,7 +16,15 @@
 (*   Call(w, c)   the Wait call / wait frame of waiter w arrives           *)
 (*   Park(w)      w is on the notify list of entry c  ("registered")       *)
 (*   Register(w,c) = Call ; Park  in one step (replay granularity)         *)
-(*   Requests(cs) requests with the codes cs arrive (one per connection);  *)
+(*   Requests(cs, dl) requests with the codes cs arrive; dl is how they    *)
+(*                reach the agent: "single" = one connection each, one      *)
+(*                frame per write; "pipelined" = all on ONE connection,     *)
+(*                back to back in one write, replies not awaited;           *)
+(*                "fragmented" = the byte stream of the frames cut at       *)
+(*                arbitrary places into several writes.  Every request      *)
+(*                RECEIVED releases the waiters of its code: the effect     *)
+(*                does not depend on dl (that is the point), the label does *)
+(*                so that every delivery of every edge is replayed;         *)
 (*                the broadcast of each precedes its dispatch              *)
 (*   Race(w,c,cs) a registration in flight together with requests: the     *)
 (*                lost wake-up window of a condition variable, both        *)
@@ -49,6 +57,8 @@ CONSTANTS
   MaxBatch,   \* how many requests may arrive together in one request step
   \* @type: Bool;
   Hist,       \* TRUE: keep the request log (history variables reqlog, parkedAt); FALSE: leave them empty
+  \* @type: Set(Str);
+  Deliveries, \* how the requests of a request step are delivered: subset of {"single", "pipelined", "fragmented"}
   \* @type: Bool;
   SplitReg    \* TRUE: Call and Park are separate steps; FALSE: Register / Race (what a harness can drive)
 
@@ -71,7 +81,7 @@ VARIABLES
   parkedAt,   \* Len(reqlog) at the moment a waiter parked
   \* @type: Int;
   nreq,       \* number of request steps so far
-  \* @type: { op: Str, ws: Set(Str), cs: Set(Int), rel: Set(Str), n: Int, pan: Bool };
+  \* @type: { op: Str, ws: Set(Str), cs: Set(Int), dl: Str, rel: Set(Str), n: Int, pan: Bool };
   last        \* label of the last step
 
 state == <<via, reg, called, waiting, released, returned>>
@@ -95,7 +105,8 @@ Own        == IF via THEN {WaitCode} ELSE {}      \* the request a registration 
 Log(x)  == IF Hist THEN Append(reqlog, x) ELSE reqlog
 Mark(w, lg) == IF Hist THEN [parkedAt EXCEPT ![w] = Len(lg)] ELSE parkedAt
 
-L(op, ws, cs, rel, n) == [op |-> op, ws |-> ws, cs |-> cs, rel |-> rel, n |-> n, pan |-> FALSE]
+LD(op, ws, cs, dl, rel, n) == [op |-> op, ws |-> ws, cs |-> cs, dl |-> dl, rel |-> rel, n |-> n, pan |-> FALSE]
+L(op, ws, cs, rel, n) == LD(op, ws, cs, IF cs = {} THEN "none" ELSE "single", rel, n)
 
 Init == /\ via \in Vias
         /\ reg = [w \in Waiters |-> NoCode]
@@ -133,13 +144,13 @@ Register(w, c) ==
   /\ UNCHANGED <<via, called, returned, nreq>>
   /\ last' = L("reg", {w}, {}, Hit(Own) \cup (IF InR(c) THEN {} ELSE {w}), Cardinality(AllOf(waiting')))
 
-Requests(cs) ==
+Requests(cs, dl) ==
   /\ cs # {} /\ Cardinality(cs) <= MaxBatch /\ nreq < MaxReq
   /\ waiting' = Clear(waiting, cs)
   /\ released' = released \cup Hit(cs)
   /\ reqlog' = Log(cs) /\ nreq' = nreq + 1
   /\ UNCHANGED <<via, reg, called, returned, parkedAt>>
-  /\ last' = L("request", {}, cs, Hit(cs), Cardinality(AllOf(waiting')))
+  /\ last' = LD("request", {}, cs, dl, Hit(cs), Cardinality(AllOf(waiting')))
 
 \* a registration in flight while requests arrive: first = TRUE when w parked before the requests with
 \* its code were broadcast (then it is released with the others), FALSE when it parked after them
@@ -165,7 +176,7 @@ Return(w) ==
 Batches == {cs \in SUBSET Codes : cs # {} /\ Cardinality(cs) <= MaxBatch}
 Next == \/ \E w \in Waiters, c \in Codes : Call(w, c) \/ Register(w, c)
         \/ \E w \in Waiters : Park(w) \/ Return(w)
-        \/ \E cs \in Batches : Requests(cs)
+        \/ \E cs \in Batches, dl \in Deliveries : Requests(cs, dl)
         \/ \E w \in Waiters, c \in Codes, cs \in Batches, first \in BOOLEAN : Race(w, c, cs, first)
 
 Fair == \A w \in Waiters : WF_vars(Park(w)) /\ WF_vars(Return(w))
@@ -182,6 +193,7 @@ MayFollow == e.cs \cup (IF Cardinality(New) > 1 THEN Own ELSE {})
 C20_Step ==
   /\ ~e.pan                                                    \* no code makes Wait, Broadcast or ServeAgent crash
   /\ e.op \in {"call", "reg", "race", "request", "park", "return"}
+  /\ e.dl \in {"none", "single", "pipelined", "fragmented"}   \* however the requests were delivered, what follows is the same
   \* everybody parked on a code that arrives is released, all together, nobody of them stays
   /\ HitOf(waiting, Arrived) \subseteq (released' \cup returned')
   /\ \A c \in InRange \cap Arrived : waiting'[c] \subseteq New
